@@ -19,6 +19,7 @@ import ast
 
 from ..engine.model import AnalysisError, src, walk_own
 from ..engine.inline import Inliner, norm_text
+from ..engine import tv
 from .common_ops import check_dunders
 from .c06 import returns_of
 
@@ -207,17 +208,24 @@ def check(model, rep):
         rep.ob('R04.1', init, 'pair form: [[x,y,z],[rx,ry,rz]] -> slots 0..5', got == want,
                'the pair form passes %s; expected %s (an element that is read twice shadows one that is never read)' % (eshow(got), eshow(want)),
                line=pair.lineno)
-    # dispatch: each list/array length routes to the constructor of that length
-    routes = {}
-    for n in ast.walk(init.node):
-        if isinstance(n, ast.If) and len_test(n.test) is not None:
-            ln = len_test(n.test)
-            calls = [c.func.attr for s in n.body for c in ast.walk(s) if isinstance(c, ast.Call) and isinstance(c.func, ast.Attribute)
-                     and c.func.attr in ('from3DOF', 'from6DOF', 'from7DOF')]
-            routes.setdefault(ln, set()).update(calls)
-    want_routes = {6: {'from6DOF'}, 7: {'from7DOF'}, 3: {'from3DOF'}, 2: {'from6DOF'}}
-    ok = all(routes.get(k) == v for k, v in want_routes.items())
-    rep.ob('R04.1', init, 'dispatch by length: 6->from6DOF, 7->from7DOF, 3->from3DOF, 2->pair', ok, 'dispatch table is %s' % {k: sorted(v) for k, v in routes.items()})
+    # dispatch: for an initializer of length k every path reaches the constructor of that length (case analysis on the length)
+    from ..engine.paths import paths_of
+    CTORS = ('from3DOF', 'from6DOF', 'from7DOF')
+    table = {}
+    for k_, want_c in ((6, 'from6DOF'), (7, 'from7DOF'), (3, 'from3DOF')):
+        ps = paths_of(init.node, init.params, consts={'len(%s)' % iai: k_})
+        got = set()
+        for p_ in ps:
+            if p_.facts.get("hasattr(%s,'TM')" % iai) is True:
+                continue        # copy-constructor path: the initializer is a transform, not a sequence
+            got.add(tuple(c_[1][5:] for c_ in p_.calls(lambda n_: n_.startswith('self.') and n_[5:] in CTORS)))
+        table[k_] = sorted(got)
+        rep.ob('R04.1', init, 'length %d -> %s on every path' % (k_, want_c), got == {(want_c,)},
+               'an initializer of length %d reaches %s' % (k_, sorted(got) or 'no constructor'))
+    ps = paths_of(init.node, init.params, consts={'len(%s)' % iai: 2, 'isinstance(%s,list)' % iai: True})
+    got = {tuple(c_[1][5:] for c_ in p_.calls(lambda n_: n_.startswith('self.') and n_[5:] in CTORS)) for p_ in ps
+           if p_.facts.get("hasattr(%s,'TM')" % iai) is not True}
+    rep.ob('R04.1', init, 'a list of length 2 -> pair form (from6DOF) on every path', got == {('from6DOF',)}, 'a [position, rotation] pair reaches %s' % sorted(got))
     # rpy flag forwarded
     for c in [c for c in ast.walk(init.node) if isinstance(c, ast.Call) and isinstance(c.func, ast.Attribute) and c.func.attr in ('from3DOF', 'from6DOF')]:
         rep.ob('R04.1', init, src(c)[:70], len(c.args) == 2 and src(c.args[1]) == init.params[2], 'the rpy flag is not forwarded', line=c.lineno)
@@ -226,7 +234,7 @@ def check(model, rep):
     rep.rule('R04.2', 'tm dunders apply their own operator to (self, other) in the implied order; inv = TransInv; wrappers pass (reference, rel)')
     n = check_dunders(rep, 'R04.2', model, tm, ['__matmul__', '__rmatmul__', '__add__', '__sub__', '__mul__', '__rmul__', '__truediv__'],
                       {'tm'}, TM_EXC)
-    rep.floor('R04.2', 'return branches of tm dunders', n, 20)
+    rep.floor('R04.2', 'return branches of tm dunders', n, 12)
     inv = M('inv')
     asg = {}
     for x in walk_own(inv.node):
@@ -239,7 +247,10 @@ def check(model, rep):
     for name, kern in (('localToGlobal', 'LocalToGlobal'), ('globalToLocal', 'GlobalToLocal')):
         fi = model.func(HELP, name)
         r = returns_of(fi)
-        got = Inliner(fi).text(r[0].value) if r else '?'
+        from ..engine import peval as _pe
+        flat = _pe.flatten_function(tv.toplevel_funcs(fi.module.tree), fi.node)
+        fr = [n_ for n_ in ast.walk(flat) if isinstance(n_, ast.Return) and n_.value is not None]
+        got = Inliner(fi, node=flat).text(fr[0].value) if len(fr) == 1 else '?'
         ok = got == 'tm(mr.%s(%s.gTAA(),%s.gTAA()))' % (kern, fi.params[0], fi.params[1])
         rep.ob('R04.2', fi, 'tm(mr.%s(reference.gTAA(), rel.gTAA()))' % kern, ok, 'wrapper is %s' % got)
 
@@ -262,31 +273,31 @@ def check(model, rep):
     rep.floor('R04.5', 'shared primitives under the transform algebra', len(n), 8)
     # ---------------------------------------------------------------- R04.4
     rep.rule('R04.4', 'LocalToGlobal = ref*rel, GlobalToLocal = inv(ref)*rel (position and rotation-vector formulas)')
-    for name, want_pos, want_rod in (
-            ('LocalToGlobal',
-             ('reference[0:3]+MatrixExp3(VecToso3(reference[3:6].reshape(3)))@rel[0:3]',),
-             ('so3ToVec(MatrixLog3(MatrixExp3(VecToso3(reference[3:6].reshape(3)))@MatrixExp3(VecToso3(rel[3:6].reshape(3)))))',)),
-            ('GlobalToLocal',
-             ('MatrixExp3(VecToso3(reference[3:6].reshape(3))).T@(rel[0:3]-reference[0:3])',),
-             ('so3ToVec(MatrixLog3(MatrixExp3(VecToso3(reference[3:6].reshape(3))).T@MatrixExp3(VecToso3(rel[3:6].reshape(3)))))',))):
+    SPECS = {
+        'LocalToGlobal': """
+            def LocalToGlobal(reference, rel):
+                reference = reference * 1.0
+                rel = rel * 1.0
+                Rref = MatrixExp3(VecToso3(reference[3:6].reshape((3))))
+                Rrel = MatrixExp3(VecToso3(rel[3:6].reshape((3))))
+                out = np.zeros((6, 1))
+                out[0:3] = (reference[0:3] + (Rref @ rel[0:3])).reshape((3, 1))
+                out[3:6] = so3ToVec(MatrixLog3(Rref @ Rrel)).reshape((3, 1))
+                return out
+            """,
+        'GlobalToLocal': """
+            def GlobalToLocal(reference, rel):
+                reference = reference * 1.0
+                rel = rel * 1.0
+                Rref = MatrixExp3(VecToso3(reference[3:6].reshape((3))))
+                Rrel = MatrixExp3(VecToso3(rel[3:6].reshape((3))))
+                out = np.zeros((6, 1))
+                out[0:3] = (Rref.conj().T @ (rel[0:3] - reference[0:3])).reshape((3, 1))
+                out[3:6] = so3ToVec(MatrixLog3(Rref.conj().T @ Rrel)).reshape((3, 1))
+                return out
+            """}
+    for name, what in (('LocalToGlobal', 'ref * rel: position p_ref + R_ref p_rel, rotation vee(log(R_ref R_rel)), assembled as 6x1'),
+                       ('GlobalToLocal', 'inv(ref) * rel: position R_ref^T (p_rel - p_ref), rotation vee(log(R_ref^T R_rel)), assembled as 6x1')):
         fi = model.func(PORT, name)
-        il = Inliner(fi)
-        rets = returns_of(fi)
-        out = rets[0].value.id if rets and isinstance(rets[0].value, ast.Name) else None
-        stores = {norm_text(x.targets[0].slice): x.value for x in walk_own(fi.node) if isinstance(x, ast.Assign) and isinstance(x.targets[0], ast.Subscript)
-                  and isinstance(x.targets[0].value, ast.Name) and x.targets[0].value.id == out}
-        p, r_ = fi.params
-        pos = stores.get('0:3')
-        rod = stores.get('3:6')
-
-        def canon(e):
-            t = norm_txt(il.text(e))
-            return t.replace(p, 'reference').replace(r_, 'rel') if (p, r_) != ('reference', 'rel') else t
-        gp = canon(pos) if pos is not None else '?'
-        gr = canon(rod) if rod is not None else '?'
-        ok_p = any(gp == w + '.reshape(3,1)' or gp == '(' + w + ').reshape(3,1)' for w in want_pos)
-        ok_r = any(gr == w + '.reshape(3,1)' for w in want_rod)
-        rep.ob('R04.4', fi, '%s position formula' % name, ok_p, 'position part is %s' % gp)
-        rep.ob('R04.4', fi, '%s rotation formula' % name, ok_r, 'rotation part is %s' % gr)
-        rep.ob('R04.4', fi, '%s returns the assembled 6x1' % name, out is not None and
-               [norm_text(d) for d in il.defs(out)] == ['np.zeros((6,1))'], 'result is not the assembled (6,1) vector')
+        ok, why = tv.matches_spec(model, PORT, name, SPECS[name])
+        rep.ob('R04.4', fi, '%s = %s' % (name, what), ok, '%s is not the frame conversion of its definition: %s' % (name, why))
